@@ -1,8 +1,8 @@
 (* Property C11: arithmetic is exact on unbounded integers and obeys the numeric-tower laws
    ONLY statements: each theorem is closed by `exact` of a lemma proved elsewhere and followed by Print Assumptions. *)
-From Coq Require Import ZArith NArith List Bool Lia Permutation.
+From Coq Require Import ZArith NArith List Bool Lia Permutation SpecFloat.
 Import ListNotations.
-Require Import Base Builtins LinkArith Float Strings Arith.
+Require Import Base Builtins LinkArith Float Strings Arith Eq Complex.
 Open Scope Z_scope.
 (* about the kernel REGENERATED from arithmetics.py *)
 Theorem int_div_is_quot a d :
@@ -73,4 +73,31 @@ Theorem pow_mod_neg_spec b e m i :
   0 < m -> e < 0 -> modinv b m = Some i -> ((i ^ (- e)) mod m * b ^ (- e)) mod m = 1 mod m.
 Proof. exact (Arith.pow_mod_neg_spec b e m i). Qed.
 Print Assumptions pow_mod_neg_spec.
+
+(* THE TOWER: a sum is of the widest kind among its operands (integer < real < complex) - never wider *)
+Theorem sum_widens_only_when_needed  :
+  forall l s v, py_sum s l = Some v -> rank v = widest l 0%nat.
+Proof. exact (Complex.sum_widens_only_when_needed ). Qed.
+Print Assumptions sum_widens_only_when_needed.
+
+Theorem product_widens_only_when_needed  :
+  forall l acc v, py_prod acc l = Some v -> rank v = widest l (rank acc).
+Proof. exact (Complex.product_widens_only_when_needed ). Qed.
+Print Assumptions product_widens_only_when_needed.
+
+Theorem complex_add ar ai br bi :
+  add_num (NC ar ai) (NC br bi) = Some (NC (fadd ar br) (fadd ai bi)).
+Proof. exact (Complex.complex_add ar ai br bi). Qed.
+Print Assumptions complex_add.
+
+(* the four-product rule *)
+Theorem complex_mul ar ai br bi :
+  mul_num (NC ar ai) (NC br bi) = Some (NC (fsub (fmul ar br) (fmul ai bi)) (fadd (fmul ar bi) (fmul ai br))).
+Proof. exact (Complex.complex_mul ar ai br bi). Qed.
+Print Assumptions complex_mul.
+
+Theorem real_joins_complex_as_x_plus_0i x br bi :
+  add_num (NF x) (NC br bi) = Some (NC (fadd x br) (fadd f_zero bi)).
+Proof. exact (Complex.real_joins_complex_as_x_plus_0i x br bi). Qed.
+Print Assumptions real_joins_complex_as_x_plus_0i.
 
